@@ -18,7 +18,8 @@ CHECKS = {
              'pack_index / unpack_index / grid_dimensions / grid_kinds re-read from /repo/src on every run and '
              'discharged by z3 for all extents and all indexes, for 11 convention x encoding configurations x every '
              'grid kind. A bounded native stand-in re-checks every index of small datasets and supplies replayable inputs.',
-        text_extra='Decision table rows added: meshes with a face-edge (and face-face) table but no edge dimension have no edge grid.',
+        text_extra='Decision table rows added: meshes with a face-edge (and face-face) table but no edge dimension have no edge grid. '
+                   'Configuration added: CF 2-D grid whose longitude stores its dimensions the other way round than latitude (the grid is the latitude variable\'s).',
         note=TRUST + 'Assumed: NP-RAVEL-MI, NP-UNRAVEL, NP-PROD contracts; integers mathematical (A-INT).',
         technique='AST-generated verification conditions over the real source, discharged by z3 (contract-based deductive verification); bounded native replay',
         design_ref='Part III C01'),
@@ -42,8 +43,9 @@ CHECKS = {
              'coordinate, bounds absent / data variable / coordinate, all 9 option pairs: every level keeps its '
              'physical depth (values and attribute agree), requested order holds, data and bounds move with the '
              'coordinate, unset options leave that aspect untouched, the input dataset is not modified (every '
-             'attribute, encoding and value compared), and a second application changes nothing.',
-        note=TRUST + 'Assumed: A-REAL (negation/comparison of reals), XR-COPY-SHALLOW, XR-ASSIGN, XR-ASSIGN-COORDS, '
+             'attribute, encoding and value compared), and a second application changes nothing. Also: an auxiliary depth coordinate on a '
+             'dimension that has its own index coordinate (layer numbers).',
+        note=TRUST + 'Assumed: XR-INDEXES / PD-INDEX-MONOTONIC, A-REAL (negation/comparison of reals), XR-COPY-SHALLOW, XR-ASSIGN, XR-ASSIGN-COORDS, '
              'XR-ISEL (slice) contracts; with the attribute absent the values share one sign so the documented '
              'majority guess is determined.',
         technique='AST-generated verification conditions over the real source discharged by z3 (contract-based deductive verification); bounded native replay',
@@ -60,7 +62,7 @@ CHECKS = {
              'guess_format maps exactly the five extensions; nice_console_errors maps OSError/CommandException/other/'
              'KeyboardInterrupt to 2/code/3/1; every CommandException site has a non-zero code (AST scan). End-to-end '
              'equality of files with library results is a bounded native stand-in.',
-        text_extra='Also proved: whenever shapely accepts the GeoJSON value, geometry_argument returns that very geometry (no tidying, no rejection). extract-points: the table handed to extract_dataframe is the very object read_csv returned -- no row removed, reordered or relabelled on the way.',
+        text_extra='Also proved: whenever shapely accepts the GeoJSON value, geometry_argument returns that very geometry (no tidying, no rejection). extract-points: the table handed to extract_dataframe is the very object read_csv returned -- no row removed, reordered or relabelled on the way. Geometry files: the argument of shape() is the document as json.load read it (no rounding, no re-building).',
         note=TRUST + 'Assumed: PY-RE (regex semantics; any consistent group decomposition), PY-FLOAT-GRAMMAR, PY-JSON, SH-SHAPE, '
              'SH-BOX; contracts/cli.py stubs for open_dataset, extract_dataframe, to_netcdf_with_fixes, the four writers '
              '(verified under C05/C15/C17 or IO); argparse wiring (main, add_arguments) only exercised by the bounded '
@@ -76,7 +78,8 @@ CHECKS = {
              'instant. fix_time_units_for_ems rewrites exactly the units attribute of the named variable; '
              'disable_default_fill_value / to_netcdf_with_fixes: decision table over dtype kinds x fill-value placement '
              '(incl. falsy fill values), suppression lands in the written copy, caller dataset untouched; '
-             'Convention.to_netcdf / time_coordinate. netCDF write/reopen identity is a bounded native stand-in.',
+             'Convention.to_netcdf / time_coordinate (the caller\'s keyword arguments are handed on unchanged and nothing is added, for time '
+             'axes stored as int32 / int64 / float64). netCDF write/reopen identity is a bounded native stand-in.',
         note=TRUST + 'Assumed: CF-PARSE-TZ / CF-DATESPLIT / CF-NUM2PYDATE (cftime grammar, validated natively against cftime on '
              '279 strings every run), DT-STRFTIME, DT-ASTIMEZONE, PYTZ-FIXEDOFFSET, XR-MAYBE-PROMOTE, XR-COPY-SHALLOW, '
              'netCDF4 attribute access; civil time as an uninterpreted function (equal fields give equal instants); '
@@ -94,7 +97,7 @@ CHECKS = {
              'real accessor / State / bind code: first attachment is kept, second bind refused, copies independent; an AST '
              'scan shows State.bind_convention is the only store to .convention and Convention.bind its only caller; '
              'a taint scan finds no hash/id/clock/randomness/set iteration in detection code.',
-        text_extra='Also proved: a class already known through its entry point can be registered by hand and then wins ties (decision table row with a tie between two built-in conventions). Also proved for registered conventions answering arbitrary integers (not only the three named levels): the highest answer wins, ties by registration order then entry-point order.',
+        text_extra='Also proved: a class already known through its entry point can be registered by hand and then wins ties (decision table row with a tie between two built-in conventions). Also proved for registered conventions answering arbitrary integers (not only the three named levels): the highest answer wins, ties by registration order then entry-point order. Two different classes with the same module and qualified name (products of one class factory) are both candidates.',
         note=TRUST + 'Assumed: XR-ACCESSOR-CACHE (one cached accessor object per Dataset object, copies start empty), '
              'ENTRYPOINTS-DETERMINISTIC, PY-SORTED-STABLE. Histories are enumerated up to a bound (stated), the write-once '
              'invariant behind them is the unbounded argument.',
@@ -128,7 +131,7 @@ CHECKS = {
              'a kept face gets its rank; a node / edge is kept iff a kept face names it (both directions, with the witness of the '
              'value-set theory), numbered by its rank among the kept ones. The polygon contracts used are re-verified in this check. '
              'BOUNDED only: buffer_faces (Python sets of symbolic content) and the exhaustive <= 4x4 clause.',
-        text_extra='Also proved: buffer_faces (the given faces plus every face sharing a node, ascending, nothing else; also on meshes that store a face-face table) and UGrid.make_clip_mask with buffer 0; memory layout of input arrays is unknown (a store through ravel() of a non C-contiguous array is lost).',
+        text_extra='Also proved: buffer_faces (the given faces plus every face sharing a node, ascending, nothing else; also on meshes that store a face-face table) and UGrid.make_clip_mask with buffer 0; memory layout of input arrays is unknown (a store through ravel() of a non C-contiguous array is lost). The mesh mask is also proved for meshes whose face-edge table is derived (not stored).',
         note=TRUST + 'Assumed: contracts of Convention.polygons / strtree (contracts/base.py, verified under C02/C06), '
              'SH-STRTREE-QUERY, NP-PAD, NP-NDITER-MULTI-INDEX, NP-FROMITER, NP-RAVEL-VIEW, NP-RESHAPE, NP-ANY-ALL with '
              'Skolem witnesses, NP-UNIQUE-VALUESET, contract of sensible_fill_value (C10). buffer_faces: bounded only.',
@@ -143,8 +146,10 @@ CHECKS = {
              'symbolic extents and contents: at a Skolem cell n the slot is empty iff a coordinate of that cell is '
              'non-finite, otherwise its vertices are exactly the corners of cell n in order (midpoint formula included); '
              'Convention.polygons drops exactly the invalid polygons with an InvalidPolygonWarning, keeps slots, makes the '
-             'array read-only; mask[n] <=> polygon. The CF 2-D neighbour-average synthesis and the extent (bounds / '
-             'geometry = bbox / union) are carried by the bounded native stand-in; the extent override is a known finding.',
+             'array read-only; mask[n] <=> polygon. The CF 2-D neighbour-average synthesis is proved against a spec function stated over the '
+             '(y, x) grid (mean of the usable centres around each node; longitude stored (x, y) included), composed into the polygon and '
+             'extent scenarios; the geometric union / bounding box of real polygons is carried by the bounded native stand-in; the extent '
+             'override is a known finding.',
         text_extra='Also proved: CFGrid2D stored bounds are used only when they are on the grid of the coordinate (rejection of transposed / 3-corner / '
              'corner-first bounds with a warning); CFGrid.bounds and UGrid.bounds contain every corner / node of every cell that has a polygon '
              '(tightness over kept polygons does not hold: known finding D10). Also proved: for the conventions without a shortcut (Arakawa C / SHOC standard) the reported bounds are the bounding box of the overall geometry, and for every convention but CF 1-D the overall geometry is the union of exactly the polygons the validity mask selects (union / bounding box as terms).',
@@ -162,6 +167,8 @@ CHECKS = {
              'the STRtree is built once over the full polygon array object; ravel of variables whose grid dimensions come '
              'in either order (with and without other dimensions) lists cells in linear order (shared with C03). '
              'select_index values, spatial-index hits and the deprecated spatial_index are bounded natively.',
+        text_extra='Configurations added: 1-D coordinates not named after their dimensions (lat(y), lon(x)); meshes that list latitude before longitude in node_coordinates / face_coordinates (first-listed = first coordinate of every vertex and centre); CF 2-D and SHOC standard grids whose longitude variable stores its two dimensions the other way round '
+                   'than the latitude variable, with synthesised corners (two defects repaired: D23, D24).',
         note=TRUST + 'Assumed: as C06 and C03, NP-MESHGRID, NP-COLUMN-STACK, XR-SQUEEZE, SH-STRTREE-QUERY. UGRID face centres computed '
              'from polygon centroids (no face_x / face_y): bounded only.',
         technique='AST-generated verification conditions over the real source at Skolem cells, z3; bounded native cross-check of all accessors cell by cell',
@@ -212,7 +219,7 @@ CHECKS = {
              'data_array together with array, leftover dimensions and mismatched vector dimensions are refused; quiver arrow n '
              'sits at face centre n with the components of cell n; every animation frame t sets the values at time t of the '
              'cells whose outlines were drawn. 5 convention configurations incl. transposed grid dimensions, all extents.',
-        text_extra='History: a collection built after an array of the same name was plotted on the same dataset carries the values and colour limits of the array given now; a leftover dimension is still refused.',
+        text_extra='History: a collection built after an array of the same name was plotted on the same dataset carries the values and colour limits of the array given now; a leftover dimension is still refused. Quiver: arrows sit at the face centres as they were before the call whatever their components are, and plotting does not modify the face centres of the convention (stores through views of the cached array are modelled).',
         note=TRUST + 'Assumed: MPL-POLYCOLLECTION / MPL-QUIVER pair their arguments by position; contracts of polygons / mask / face_centres '
              '(C02/C06); SELECTION-THEORY; NP-NANMINMAX-SKOLEM. Real artists are inspected by the bounded native stand-in.',
         technique='AST-generated verification conditions over the real source against callee contracts and recording stand-ins for matplotlib, z3; bounded native inspection of real artists',
@@ -245,7 +252,7 @@ CHECKS = {
              'wet; depth dimension and coordinates removed; all other variables, coordinates and attributes bit-identical; input '
              'not modified. The cumulative-count argument uses lemma cumsum-monotone, proved by induction (base and step are '
              'discharged obligations) and instantiated explicitly (ghost lemma calls).',
-        text_extra='The depth coordinates may be given as any iterable, also a one-shot iterator or generator (scenarios for tuple / iterator / generator).',
+        text_extra='The depth coordinates may be given as any iterable, also a one-shot iterator or generator (scenarios for tuple / iterator / generator). Every dataset also carries a static depth-resolved variable (depth and the horizontal dimensions, no time): it is reduced like the others.',
         note=TRUST + 'Assumed: XR-CUMSUM-SKIPNA, XR-ARGMAX-FIRST, XR-ISEL-POINTWISE, XR-MERGE / XR-DROP-DIMS, PY-STR-HASH, INDUCTION-NAT (meta rule), '
              'A-FINITE-DATA (values are finite or NaN), STATIC-FLOOR-SHARED (variables of one group share the wet pattern; the violation '
              'of it by a gapless first variable is known finding D17, found natively). dataset.ems.ocean_floor() and byte-level values '
@@ -287,7 +294,7 @@ CHECKS = {
              'Meshes: masks given by arbitrary kept-sets (new index = rank); row k of every face / edge / node variable is the k-th kept '
              'row, bit-identical, in the original order; variables without mesh dimensions pass through; with or without edge '
              'dimension / edge_node table.',
-        text_extra='Also proved: applying a mask does not modify the mask (frame condition; a mask is applied to several datasets); every table of a mesh carries its own index base. Also proved: a short variable whose missing value is stored as a double (any double, NaN included) gets exactly that value outside the selection (promotion to float64), not a number of the short type.',
+        text_extra='Also proved: applying a mask does not modify the mask (frame condition; a mask is applied to several datasets); every table of a mesh carries its own index base. Also proved: a short variable whose missing value is stored as a double (any double, NaN included) gets exactly that value outside the selection (promotion to float64), not a number of the short type. Also proved: Convention.clip hands the region as given (any geometry type) and the buffer to make_clip_mask and applies the mask it gets. The mesh clip mask taken as given by the mesh scenarios is re-verified in this check (C07 scenarios).',
         note=TRUST + 'Assumed: XR-WHERE, XR-ISEL, XR-NETCDF-ROUNDTRIP / XR-OPEN-MFDATASET (what decoding does to fill values and dtypes is NOT '
              'modelled), XR-MAYBE-PROMOTE, SELECTION-THEORY / SELECTION-EXTENSIONALITY, QUANT-SKOLEM, VALID-UGRID-MASK (C07), NP-MA. The real '
              'netCDF round trip, masks saved / reloaded and applied to a second dataset, and integer fill behaviour on disk are the bounded '
@@ -305,6 +312,7 @@ CHECKS = {
              'select_variables / get_all_geometry_names for 11 convention configurations (bounds as variables or coordinates, coordinates as '
              'plain variables, every optional mesh table, edge / face coordinates): the inventory is exactly the variables polygons and '
              'topology are computed from and each is kept as the very same array.',
+        text_extra='The mesh clip mask taken as given is re-verified in this check (C07 scenarios).',
         note=TRUST + 'Assumed: as C08, plus the polygon contracts of C02 / C06 (polygons are a function of the geometry variables). Saving / '
              'reopening the clipped dataset, polygon equality on real files and cross-table consistency of clipped meshes are the bounded '
              'native stand-in.',
